@@ -28,21 +28,48 @@ Proof.
     constructor; [apply IH; assumption|]. apply Forall_app. split; [exact Hy|constructor; [exact Hyx|constructor]].
 Qed.
 
-Lemma row_step_inv : forall ign s sp s', Inv s -> row_step ign s sp = Some s' -> Inv s' /\ ctr s <= ctr s'.
+Lemma bump_ge : forall tmax c, c <= bump tmax c.
+Proof. intros. unfold bump. destruct (c <? tmax); lia. Qed.
+
+Lemma eval_id_facts : forall c sp id c', eval_id c sp = (id, c') ->
+  c <= c' /\ (0 <= c -> id <= c') /\ (sp = None -> id = c /\ c' = c).
 Proof.
-  intros ign s sp s' [Hp Hi Hs Hg Hso] H. unfold row_step in H.
+  intros c sp id c' Ee. unfold eval_id in Ee. destruct sp as [k|].
+  - destruct (k <? 0) eqn:Ek; injection Ee as <- <-; [apply Z.ltb_lt in Ek|apply Z.ltb_ge in Ek]; repeat split; try lia; discriminate.
+  - injection Ee as <- <-. repeat split; lia.
+Qed.
+
+Lemma row_step_mono : forall tmax ign s spu s', row_step tmax ign s spu = Some s' -> ctr s <= ctr s'.
+Proof.
+  intros tmax ign s [sp ud] s' H. unfold row_step in H. destruct (eval_id (ctr s) sp) as [id c'] eqn:Ee.
+  destruct (eval_id_facts _ _ _ _ Ee) as [Hc1 _].
+  destruct (ud || existsb (Z.eqb id) (ids s)).
+  - destruct ign; [|discriminate]. injection H as <-. cbn. lia.
+  - injection H as <-. cbn. destruct (id =? c'); [pose proof (bump_ge tmax c')|]; lia.
+Qed.
+
+Lemma rows_run_mono : forall tmax ign specs s s' b, rows_run tmax ign s specs = (s', b) -> ctr s <= ctr s'.
+Proof.
+  intros tmax ign. induction specs as [|sp r IH]; cbn; intros s s' b H.
+  - injection H as <- _. lia.
+  - destruct (row_step tmax ign s sp) as [s1|] eqn:E.
+    + pose proof (row_step_mono _ _ _ _ _ E). pose proof (IH _ _ _ H). lia.
+    + injection H as <- _. lia.
+Qed.
+
+(* one row keeps the invariant as long as the counter stays below the type maximum *)
+Lemma row_step_inv : forall tmax ign s spu s', Inv s -> row_step tmax ign s spu = Some s' -> ctr s' < tmax -> Inv s'.
+Proof.
+  intros tmax ign s [sp ud] s' [Hp Hi Hs Hg Hso] H Hlt. unfold row_step in H.
   destruct (eval_id (ctr s) sp) as [id c'] eqn:Ee.
-  assert (Hc : ctr s <= c' /\ id <= c' /\ (sp = None -> id = ctr s /\ c' = ctr s)).
-  { unfold eval_id in Ee. destruct sp as [k|].
-    - destruct (k <? 0) eqn:Ek; injection Ee as <- <-; [apply Z.ltb_lt in Ek|apply Z.ltb_ge in Ek]; repeat split; try lia; discriminate.
-    - injection Ee as <- <-. repeat split; lia. }
-  destruct Hc as [Hc1 [Hc2 Hc3]].
-  destruct (existsb (Z.eqb id) (ids s)).
-  - destruct ign; [|discriminate]. injection H as <-. cbn. split; [constructor; cbn; assumption|lia].
-  - injection H as <-. cbn.
-    assert (Hn : ctr s <= (if id =? c' then c' + 1 else c') /\ id < (if id =? c' then c' + 1 else c')).
-    { destruct (id =? c') eqn:E; [apply Z.eqb_eq in E|apply Z.eqb_neq in E]; lia. }
-    destruct Hn as [Hn1 Hn2]. split; [|exact Hn1].
+  destruct (eval_id_facts _ _ _ _ Ee) as [Hc1 [Hc2' Hc3]]. assert (Hc2 : id <= c') by (apply Hc2'; lia).
+  destruct (ud || existsb (Z.eqb id) (ids s)).
+  - destruct ign; [|discriminate]. injection H as <-. cbn. constructor; cbn; assumption.
+  - injection H as <-. cbn in Hlt |- *.
+    assert (Hn : ctr s <= (if id =? c' then bump tmax c' else c') /\ id < (if id =? c' then bump tmax c' else c')).
+    { unfold bump in *. destruct (id =? c') eqn:E; [apply Z.eqb_eq in E|apply Z.eqb_neq in E]; [|lia].
+      destruct (c' <? tmax) eqn:E2; [apply Z.ltb_lt in E2|apply Z.ltb_ge in E2]; lia. }
+    destruct Hn as [Hn1 Hn2].
     constructor; cbn.
     + lia.
     + apply below_snoc; [eapply below_mono; [|exact Hi]; exact Hn1|exact Hn2].
@@ -52,13 +79,13 @@ Proof.
     + destruct sp; [exact Hso|]. destruct (Hc3 eq_refl) as [-> _]. apply sorted_snoc; assumption.
 Qed.
 
-Lemma rows_run_inv : forall ign specs s s' b, Inv s -> rows_run ign s specs = (s', b) -> Inv s'.
+Lemma rows_run_inv : forall tmax ign specs s s', Inv s -> rows_run tmax ign s specs = (s', true) -> ctr s' < tmax -> Inv s'.
 Proof.
-  intros ign. induction specs as [|sp r IH]; cbn; intros s s' b HI H.
-  - injection H as <- _. exact HI.
-  - destruct (row_step ign s sp) as [s1|] eqn:E.
-    + eapply IH; [|exact H]. exact (proj1 (row_step_inv _ _ _ _ HI E)).
-    + injection H as <- _. exact HI.
+  intros tmax ign. induction specs as [|sp r IH]; cbn; intros s s' HI H Hlt.
+  - injection H as <-. exact HI.
+  - destruct (row_step tmax ign s sp) as [s1|] eqn:E; [|discriminate].
+    eapply IH; [|exact H|exact Hlt]. eapply row_step_inv; [exact HI|exact E|].
+    pose proof (rows_run_mono _ _ _ _ _ _ H). lia.
 Qed.
 
 Lemma filter_below : forall c f l, below c l -> below c (filter f l).
@@ -67,16 +94,15 @@ Proof.
   exact (proj1 (Forall_forall _ _) H x (proj1 Hx)).
 Qed.
 
-Lemma step_inv : forall s e, Inv s -> ev_ok s e = true -> Inv (fst (step s e)).
+Lemma step_inv : forall tmax s e, Inv s -> ev_ok s e = true -> ctr (fst (step tmax s e)) < tmax -> Inv (fst (step tmax s e)).
 Proof.
-  intros s e HI Hg. destruct e as [ign specs|k|k|n]; cbn.
-  - destruct (rows_run ign (begin_insert s specs) specs) as [s1 b] eqn:E.
+  intros tmax s e HI Hg. destruct e as [ign specs|k|k|n]; cbn.
+  - destruct (rows_run tmax ign (begin_insert s specs) specs) as [s1 b] eqn:E.
     assert (HI0 : Inv (begin_insert s specs)) by (destruct HI; constructor; cbn; assumption).
-    pose proof (rows_run_inv _ _ _ _ _ HI0 E) as HI1.
-    destruct b; cbn; [exact HI1|]. destruct HI; constructor; cbn; assumption.
-  - destruct HI; constructor; cbn; try assumption. apply filter_below. assumption.
-  - destruct HI; constructor; cbn; try assumption. apply filter_below. assumption.
-  - cbn in Hg. apply Z.leb_le in Hg. destruct HI as [Hp Hi Hs Hgn Hso]. constructor; cbn.
+    destruct b; cbn; intros Hlt; [exact (rows_run_inv _ _ _ _ _ HI0 E Hlt)|]. destruct HI; constructor; cbn; assumption.
+  - intros _. destruct HI; constructor; cbn; try assumption. apply filter_below. assumption.
+  - intros _. destruct HI; constructor; cbn; try assumption. apply filter_below. assumption.
+  - intros _. cbn in Hg. apply Z.leb_le in Hg. destruct HI as [Hp Hi Hs Hgn Hso]. constructor; cbn.
     + lia.
     + eapply below_mono; [exact Hg|exact Hi].
     + eapply below_mono; [exact Hg|exact Hs].
@@ -84,42 +110,94 @@ Proof.
     + exact Hso.
 Qed.
 
-Theorem run_inv : forall h s, Inv s -> guarded s h = true -> Inv (run s h).
+Theorem run_inv : forall tmax h s, Inv s -> guarded tmax s h = true -> Inv (run tmax s h).
 Proof.
-  induction h as [|e h IH]; intros s HI Hg; cbn; [exact HI|].
-  cbn in Hg. apply andb_prop in Hg. destruct Hg as [H1 H2]. apply IH; [apply step_inv; assumption|exact H2].
+  intros tmax. induction h as [|e h IH]; intros s HI Hg; cbn; [exact HI|].
+  cbn in Hg. apply andb_prop in Hg. destruct Hg as [H1 H2]. apply andb_prop in H1. destruct H1 as [H0 H1].
+  apply Z.ltb_lt in H1. apply IH; [apply step_inv; assumption|exact H2].
+Qed.
+
+(* ---------- saturation: the counter pins at the type maximum and never wraps ---------- *)
+Lemma row_step_le : forall tmax ign s spu s', ctr s <= tmax ->
+  (match fst spu with Some k => k <= tmax | None => True end) ->
+  row_step tmax ign s spu = Some s' -> ctr s' <= tmax.
+Proof.
+  intros tmax ign s [sp ud] s' Hc Hk H. unfold row_step in H. destruct (eval_id (ctr s) sp) as [id c'] eqn:Ee.
+  assert (Hc' : c' <= tmax).
+  { unfold eval_id in Ee. destruct sp as [k|]; [|injection Ee as _ <-; exact Hc]. cbn in Hk.
+    destruct (k <? 0); injection Ee as _ <-; lia. }
+  destruct (ud || existsb (Z.eqb id) (ids s)).
+  - destruct ign; [|discriminate]. injection H as <-. cbn. exact Hc.
+  - injection H as <-. cbn. unfold bump. destruct (id =? c'); [|exact Hc'].
+    destruct (c' <? tmax) eqn:E; [apply Z.ltb_lt in E|]; lia.
+Qed.
+
+Lemma rows_run_le : forall tmax ign specs s s' b, ctr s <= tmax ->
+  forallb (fun sp : option Z * bool => match fst sp with Some k => k <=? tmax | None => true end) specs = true ->
+  rows_run tmax ign s specs = (s', b) -> ctr s' <= tmax.
+Proof.
+  intros tmax ign. induction specs as [|sp r IH]; cbn; intros s s' b Hc Hf H.
+  - injection H as <- _. exact Hc.
+  - apply andb_prop in Hf. destruct Hf as [Hf1 Hf2]. destruct (row_step tmax ign s sp) as [s1|] eqn:E.
+    + eapply IH; [|exact Hf2|exact H]. eapply row_step_le; [exact Hc| |exact E].
+      destruct (fst sp); [apply Z.leb_le; exact Hf1|exact I].
+    + injection H as <- _. exact Hc.
+Qed.
+
+Lemma step_le : forall tmax s e, ctr s <= tmax -> ev_fits tmax e = true -> ctr (fst (step tmax s e)) <= tmax.
+Proof.
+  intros tmax s e Hc Hf. destruct e as [ign specs|k|k|n]; cbn; try exact Hc.
+  - destruct (rows_run tmax ign (begin_insert s specs) specs) as [s1 b] eqn:E.
+    destruct b; cbn; [|exact Hc]. eapply rows_run_le; [|exact Hf|exact E]. exact Hc.
+  - cbn in Hf. apply Z.leb_le. exact Hf.
+Qed.
+
+Theorem run_le : forall tmax h s, ctr s <= tmax -> forallb (ev_fits tmax) h = true -> ctr (run tmax s h) <= tmax.
+Proof.
+  intros tmax. induction h as [|e h IH]; intros s Hc Hf; cbn; [exact Hc|].
+  cbn in Hf. apply andb_prop in Hf. destruct Hf as [H1 H2]. apply IH; [apply step_le; assumption|exact H2].
+Qed.
+
+(* at the maximum with the maximum stored: a generated insert fails (duplicate key) and the counter stays *)
+Theorem pinned_insert_fails : forall tmax s, ctr s = tmax -> In tmax (ids s) ->
+  snd (step tmax s (EInsert false [(None, false)])) = (false, 0) /\ ctr (fst (step tmax s (EInsert false [(None, false)]))) = tmax.
+Proof.
+  intros tmax s Hc Hin. cbn. unfold row_step. cbn. rewrite Hc.
+  assert (E : existsb (Z.eqb tmax) (ids s) = true).
+  { apply existsb_exists. exists tmax. split; [exact Hin|apply Z.eqb_refl]. }
+  rewrite E. cbn. split; [reflexivity|exact Hc].
 Qed.
 
 Lemma init_inv : Inv init.
 Proof. constructor; cbn; try constructor; lia. Qed.
 
 (* the next generated id is the counter *)
-Lemma generated_is_counter : forall ign s s', row_step ign s None = Some s' ->
-  s' = s \/ (gens s' = gens s ++ [ctr s] /\ ids s' = ids s ++ [ctr s] /\ ctr s' = ctr s + 1).
+Lemma generated_is_counter : forall tmax ign s ud s', row_step tmax ign s (None, ud) = Some s' ->
+  s' = s \/ (gens s' = gens s ++ [ctr s] /\ ids s' = ids s ++ [ctr s] /\ ctr s' = bump tmax (ctr s)).
 Proof.
-  intros ign s s' H. unfold row_step in H. cbn in H.
-  destruct (existsb (Z.eqb (ctr s)) (ids s)).
+  intros tmax ign s ud s' H. unfold row_step in H. cbn in H.
+  destruct (ud || existsb (Z.eqb (ctr s)) (ids s)).
   - destruct ign; [|discriminate]. injection H as <-. left. destruct s; reflexivity.
   - injection H as <-. right. cbn. rewrite Z.eqb_refl. repeat split.
 Qed.
 
 (* LAST_INSERT_ID() after a successful plain INSERT is the first generated id *)
-Lemma row_step_plain_fields : forall s sp s', row_step false s sp = Some s' ->
+Lemma row_step_plain_fields : forall tmax s sp ud s', row_step tmax false s (sp, ud) = Some s' ->
   exists id, lid s' = (if cnt s =? 0 then id else lid s) /\
              cnt s' = (if cnt s <? 0 then cnt s else cnt s - 1) /\
              gens s' = (match sp with None => gens s ++ [id] | Some _ => gens s end).
 Proof.
-  intros s sp s' E. unfold row_step in E. destruct (eval_id (ctr s) sp) as [id c'].
-  destruct (existsb (Z.eqb id) (ids s)); [discriminate|]. injection E as <-. exists id. cbn. repeat split.
+  intros tmax s sp ud s' E. unfold row_step in E. destruct (eval_id (ctr s) sp) as [id c'].
+  destruct (ud || existsb (Z.eqb id) (ids s)); [discriminate|]. injection E as <-. exists id. cbn. repeat split.
 Qed.
 
-Lemma rows_run_neg : forall specs s s', cnt s < 0 -> rows_run false s specs = (s', true) ->
+Lemma rows_run_neg : forall tmax specs s s', cnt s < 0 -> rows_run tmax false s specs = (s', true) ->
   lid s' = lid s /\ exists rest, gens s' = gens s ++ rest.
 Proof.
-  induction specs as [|sp r IH]; cbn; intros s s' Hc H.
+  intros tmax. induction specs as [|[sp ud] r IH]; cbn [rows_run]; intros s s' Hc H.
   - injection H as <-. split; [reflexivity|exists []; rewrite app_nil_r; reflexivity].
-  - destruct (row_step false s sp) as [s1|] eqn:E; [|discriminate].
-    destruct (row_step_plain_fields _ _ _ E) as [id [Hl [Hn Hg]]].
+  - destruct (row_step tmax false s (sp, ud)) as [s1|] eqn:E; [|discriminate].
+    destruct (row_step_plain_fields _ _ _ _ _ E) as [id [Hl [Hn Hg]]].
     assert (X : cnt s <? 0 = true) by (apply Z.ltb_lt; exact Hc). rewrite X in Hn.
     assert (Y : cnt s =? 0 = false) by (apply Z.eqb_neq; lia). rewrite Y in Hl.
     assert (Hc1 : cnt s1 < 0) by lia.
@@ -129,15 +207,15 @@ Qed.
 
 Lemma first_gen_index_ge : forall specs, -1 <= first_gen_index specs.
 Proof.
-  induction specs as [|[k|] r IH]; cbn; try lia. destruct (first_gen_index r <? 0) eqn:E; [lia|apply Z.ltb_ge in E; lia].
+  induction specs as [|[[k|] ud] r IH]; cbn; try lia. destruct (first_gen_index r <? 0) eqn:E; [lia|apply Z.ltb_ge in E; lia].
 Qed.
 
-Lemma rows_run_lid : forall specs s s', cnt s = first_gen_index specs -> 0 <= cnt s ->
-  rows_run false s specs = (s', true) -> exists g rest, gens s' = gens s ++ g :: rest /\ lid s' = g.
+Lemma rows_run_lid : forall tmax specs s s', cnt s = first_gen_index specs -> 0 <= cnt s ->
+  rows_run tmax false s specs = (s', true) -> exists g rest, gens s' = gens s ++ g :: rest /\ lid s' = g.
 Proof.
-  induction specs as [|sp r IH]; cbn; intros s s' Hc Hp H; [lia|].
-  destruct (row_step false s sp) as [s1|] eqn:E; [|discriminate].
-  destruct (row_step_plain_fields _ _ _ E) as [id [Hl [Hn Hg]]].
+  intros tmax. induction specs as [|[sp ud] r IH]; cbn [rows_run first_gen_index]; intros s s' Hc Hp H; [cbn in Hc; lia|].
+  destruct (row_step tmax false s (sp, ud)) as [s1|] eqn:E; [|discriminate].
+  destruct (row_step_plain_fields _ _ _ _ _ E) as [id [Hl [Hn Hg]]].
   assert (X : cnt s <? 0 = false) by (apply Z.ltb_ge; exact Hp). rewrite X in Hn.
   destruct sp as [k|].
   - destruct (first_gen_index r <? 0) eqn:Y; [lia|]. apply Z.ltb_ge in Y.
@@ -145,36 +223,43 @@ Proof.
     destruct (IH s1 s' H1 H2 H) as [g [rest [Hr Hlg]]]. exists g, rest. split; [rewrite Hr, Hg; reflexivity|exact Hlg].
   - assert (Z0 : cnt s =? 0 = true) by (apply Z.eqb_eq; lia). rewrite Z0 in Hl.
     assert (Hc1 : cnt s1 < 0) by lia.
-    destruct (rows_run_neg r s1 s' Hc1 H) as [Hl' [rest Hr]].
+    destruct (rows_run_neg tmax r s1 s' Hc1 H) as [Hl' [rest Hr]].
     exists id, rest. split; [rewrite Hr, Hg, <- app_assoc; reflexivity|congruence].
 Qed.
 
-Theorem plain_insert_lid : forall s specs s' iid,
-  step s (EInsert false specs) = (s', (true, iid)) -> 0 <= first_gen_index specs ->
+Theorem plain_insert_lid : forall tmax s specs s' iid,
+  step tmax s (EInsert false specs) = (s', (true, iid)) -> 0 <= first_gen_index specs ->
   exists g rest, gens s' = gens s ++ g :: rest /\ lid s' = g.
 Proof.
-  intros s specs s' iid H Hf. cbn in H.
-  destruct (rows_run false (begin_insert s specs) specs) as [s1 b] eqn:E. destruct b; [|discriminate].
-  injection H as <- _. exact (rows_run_lid specs (begin_insert s specs) s1 (eq_refl : cnt (begin_insert s specs) = first_gen_index specs) Hf E).
+  intros tmax s specs s' iid H Hf. cbn in H.
+  destruct (rows_run tmax false (begin_insert s specs) specs) as [s1 b] eqn:E. destruct b; [|discriminate].
+  injection H as <- _. exact (rows_run_lid tmax specs (begin_insert s specs) s1 (eq_refl : cnt (begin_insert s specs) = first_gen_index specs) Hf E).
 Qed.
 
-(* ---------- witnesses: what the faithful model does outside the guard / for the other reports ---------- *)
-Definition h_alter : list event :=
-  [EInsert false [None; None; None]; EAlter 2; EInsert false [None]].
+(* ---------- witnesses ---------- *)
+Definition big : Z := 9223372036854775807.
+Definition g : option Z * bool := (None, false).
+Definition x (k : Z) : option Z * bool := (Some k, false).
 
 Lemma alter_below_max_stuck :
-  guarded init h_alter = false /\
-  ctr (run init [EInsert false [None; None; None]; EAlter 2]) = 2 /\ In 3 (ids (run init [EInsert false [None; None; None]; EAlter 2])) /\
-  snd (step (run init [EInsert false [None; None; None]; EAlter 2]) (EInsert false [None])) = (false, 0).
+  guarded big init [EInsert false [g; g; g]; EAlter 2; EInsert false [g]] = false /\
+  ctr (run big init [EInsert false [g; g; g]; EAlter 2]) = 2 /\ In 3 (ids (run big init [EInsert false [g; g; g]; EAlter 2])) /\
+  snd (step big (run big init [EInsert false [g; g; g]; EAlter 2]) (EInsert false [g])) = (false, 0).
 Proof. repeat split; vm_compute; auto. Qed.
 
 Lemma ignore_lid_shift :
-  let s := run init [EInsert false [None]] in
-  let r := step s (EInsert true [Some 1; None; Some 20]) in
+  let s := run big init [EInsert false [g]] in
+  let r := step big s (EInsert true [x 1; g; x 20]) in
   snd r = (true, 2) /\ gens (fst r) = [1; 2] /\ lid (fst r) = 20.
 Proof. repeat split; vm_compute; reflexivity. Qed.
 
 Lemma insert_id_explicit_first :
-  let r := step init (EInsert false [Some 5; None]) in
+  let r := step big init (EInsert false [x 5; g]) in
   snd r = (true, 5) /\ gens (fst r) = [6] /\ lid (fst r) = 6.
 Proof. repeat split; vm_compute; reflexivity. Qed.
+
+(* TINYINT: the maximum 127 is generated, deleted and generated AGAIN (the counter is pinned, it does not wrap) *)
+Lemma max_id_reused_after_delete :
+  let s := run 127 init [EAlter 127; EInsert false [g]; EDelEq 127; EInsert false [g]] in
+  gens s = [127; 127] /\ ctr s = 127.
+Proof. split; vm_compute; reflexivity. Qed.
